@@ -267,7 +267,8 @@ def run(out: Outcome) -> None:
                 break
         if k is None:
             continue
-        post = [6.0 + abs(rng.gauss(0.0, 1.0)) for _ in range(31)] + [40.0 + abs(rng.gauss(0.0, 1.0)) for _ in range(8)] + [40.0 + abs(rng.gauss(0.0, 1.0)) for _ in range(30)]
+        # (the second change starts 12 updates before the warm-up ends: whatever test a shortened warm-up would allow has 9 of its newest values on the new level by update 39)
+        post = [6.0 + abs(rng.gauss(0.0, 1.0)) for _ in range(28)] + [40.0 + abs(rng.gauss(0.0, 1.0)) for _ in range(11)] + [40.0 + abs(rng.gauss(0.0, 1.0)) for _ in range(30)]
         r = check_trace(out, cls, p, [("u", v) for v in pre[: k + 1]] + [("r",)] + [("u", v) for v in post], label="reset-after-drift:")
         if r:
             runners.append(r)
